@@ -68,6 +68,37 @@ Proof.
   apply sumR_ext; intros j' Hj'. cbn beta. rewrite (mod_sub_sub j j' W Hj Hj'). reflexivity.
 Qed.
 
+(* its transpose is the matrix of the correlation *)
+Theorem bccbT_is_ccorr H W h y r : (r < H * W)%nat ->
+  rmv (H * W) (rmT (bccb H W h)) (vecW W y) r = ccorr H W h y (r / W)%nat (r mod W)%nat.
+Proof.
+  intros Hr. destruct (divmod_lt r H W Hr) as (Hi & Hj & W0). set (i := (r / W)%nat) in *. set (j := (r mod W)%nat) in *.
+  unfold rmv. rewrite sumR_prod.
+  transitivity (sumR H (fun i' => sumR W (fun j' => h ((i' + H - i) mod H)%nat ((j' + W - j) mod W)%nat * y i' j'))).
+  { apply sumR_ext; intros i' Hi'. apply sumR_ext; intros j' Hj'. unfold rmT, bccb, vecW. fold i. fold j.
+    rewrite (dm_div' i' W j' Hj'), (dm_mod' i' W j' Hj'). rewrite (roll_index i' i H Hi' Hi), (roll_index j' j W Hj' Hj). reflexivity. }
+  unfold ccorr.
+  rewrite <- (sumR_rot K H i (fun i' => sumR W (fun j' => h ((i' + H - i) mod H)%nat ((j' + W - j) mod W)%nat * y i' j'))) by lia.
+  apply sumR_ext; intros a Ha. cbn beta. rewrite (mod_add_sub a i H Ha Hi).
+  rewrite <- (sumR_rot K W j (fun j' => h a ((j' + W - j) mod W)%nat * y ((a + i) mod H)%nat j')) by lia.
+  apply sumR_ext; intros b Hb. cbn beta. rewrite (mod_add_sub b j W Hb Hj). rewrite (Nat.add_comm a i), (Nat.add_comm b j). reflexivity.
+Qed.
+Lemma rmv_add n (A B : rmat) (v : nat -> K) r : rmv n (rmadd A B) v r = rmv n A v r + rmv n B v r.
+Proof. unfold rmv, rmadd. rewrite <- sumR_add. apply sumR_ext; intros. ring. Qed.
+Lemma rmv_scale_id n (c : K) (v : nat -> K) r : (r < n)%nat -> rmv n (rmscale c rmid) v r = c * v r.
+Proof. intros Hr. unfold rmscale. transitivity (c * rmv n rmid v r); [|now rewrite rmv_id].
+  unfold rmv. rewrite <- sumR_mul_l. apply sumR_ext; intros. ring. Qed.
+(* a system whose matrix has a left inverse has at most one solution *)
+Lemma left_inverse_unique n (T Tp : rmat) (x y : nat -> K) :
+  (forall i j, (i < n)%nat -> (j < n)%nat -> rmm n Tp T i j = rmid i j) ->
+  (forall r, (r < n)%nat -> rmv n T x r = rmv n T y r) -> forall r, (r < n)%nat -> x r = y r.
+Proof.
+  intros Hl E r Hr. rewrite <- (rmv_id K n x r Hr), <- (rmv_id K n y r Hr).
+  rewrite <- (rmv_ext K n (rmm n Tp T) rmid x r) by (intros; now apply Hl).
+  rewrite <- (rmv_ext K n (rmm n Tp T) rmid y r) by (intros; now apply Hl).
+  rewrite !rmv_rmm. apply rmv_ext_v. exact E.
+Qed.
+
 (* two matrices that act alike on every flattened image have the same entries *)
 Lemma rmv_delta n (A : rmat) s r : (s < n)%nat -> rmv n A (fun l => if Nat.eqb l s then c1 else c0) r = A r s.
 Proof. intros Hs. unfold rmv. rewrite <- (sumR_delta K n s (fun l => A r l) Hs). apply sumR_ext; intros l _. destruct (Nat.eqb l s); ring. Qed.
